@@ -84,10 +84,8 @@ def simplify(run):
             if p[ax] > lo:
                 c = copy.deepcopy(run); c['config']['param'][ax] = lo; yield c
     for i, o in enumerate(run['ops']):
-        if o.get('fail_at'):
-            c = copy.deepcopy(run); del c['ops'][i]['fail_at']; yield c
-            if o['fail_at'] > 1:
-                c = copy.deepcopy(run); c['ops'][i]['fail_at'] = 1; yield c
+        if o.get('fault'):
+            c = copy.deepcopy(run); del c['ops'][i]['fault']; yield c
         if o['op'] == 'SET_IMPORTANCE' and o['w'] not in (0, 1):
             c = copy.deepcopy(run); c['ops'][i]['w'] = 1; yield c
 
